@@ -2,6 +2,8 @@
 
 from __future__ import annotations
 
+import ast
+
 from typing import Any, Dict, List, Tuple
 
 from ..interp import Config, Interp, _Raise
@@ -46,6 +48,12 @@ def enter_obligations(ctx: Ctx, I: Interp) -> str:
     for l in I.run_function(CORE, "Tag.__enter__", mk, cfg):
         s = l.run.__dict__["s"]
         ev = _hook_events(l, s)
+        fuids = {getattr(v_, "uid", None) for v_ in s.attrs.values()}
+        truthy = [a for a, _ in l.atoms if isinstance(a, tuple) and a[0] in ("truthy-kind", "truthy", "nonempty", "nonzero") and a[1] in fuids]
+        ctx.check(not truthy, "C17.enter", "an active block is recognised by `<saved hook> is not None`", where, f"guard atoms {[a for a, _ in l.atoms]}",
+                  "Tag.__enter__ decides whether the tag is already active by the truth value of the saved hook: a hook object that is falsy "
+                  "(a callable with __bool__/__len__, e.g. an empty recorder) is not recognised, so re-entering the active tag overwrites the saved hook",
+                  witness="sys.displayhook = EmptyListRecorder(); with t: with t: ...")
         if l.kind == "raise":
             n_raise += 1
             bad = [k for k, _ in ev if k == "install" or k.startswith("field:") or k == "other-global"]
@@ -123,6 +131,13 @@ def exit_obligations(ctx: Ctx, I: Interp, field: str) -> None:
         if inst and calls:
             ctx.check(inst[0] < calls[0], "C17.exit", "the hook is restored before any foreign code is called", where, f"events {kinds}{cs}",
                       "the enclosing hook is called before sys.displayhook has been restored: if it raises, the hook stays replaced")
+        clears = [i for i, (k, e_) in enumerate(ev) if k == "field:" + field and e_.value is None]
+        has_try = any(isinstance(n_, ast.Try) for n_ in ast.walk(fn))
+        if calls and not has_try:
+            ctx.check(bool(clears) and clears[0] < calls[0], "C17.exit", "the tag is marked as exited before any foreign code is called", where,
+                      f"events {kinds}{cs}",
+                      f"the saved hook is cleared only after the tag has been handed to the enclosing hook{cs}: if that hook raises, the tag stays marked as "
+                      f"active and can never be entered again", witness="with outer_that_raises_on_display: with t: pass;  then `with t:` again")
     ctx.min_count("Tag.__exit__ paths", n, 1)
 
 
